@@ -11,7 +11,11 @@
 (* the text read back by an independent definition of the syntax           *)
 (* (productions [1]-[88] as a scanner) rather than by construction.        *)
 (* The scanner is total: anything it cannot read becomes a "lexerror"      *)
-(* token, which the machine rejects (BadToken).                            *)
+(* token, which the machine rejects (BadToken).  Parameter entities (a     *)
+(* declaration <!ENTITY % ..> or a reference %name; in the internal        *)
+(* subset) are outside what this specification models: they become a       *)
+(* "peref" token, the scan stops, and the machine labels the document      *)
+(* "ParameterEntity" - a label no property draws a conclusion from.        *)
 (***************************************************************************)
 EXTENDS XmlDoc
 
@@ -203,6 +207,8 @@ Markup(s, i, indtd) ==
           ELSE [toks |-> <<[k |-> "doctype", n |-> SubSeq(s, j, ne - 1), ext |-> IF x.ok THEN x.ext ELSE "none",
                             pub |-> IF x.ok THEN x.pub ELSE <<>>, sys |-> IF x.ok THEN x.sys ELSE <<>>,
                             subset |-> (At(s, k1) = 91)]>>, next |-> k1 + 1]
+  ELSE IF Has(s, i, <<60, 33, 69, 78, 84, 73, 84, 89>>) /\ At(s, SkipWs(s, i + 8)) = 37
+  THEN [toks |-> <<[k |-> "peref"]>>, next |-> Len(s) + 1]     \* <!ENTITY % ...: parameter entity
   ELSE IF Has(s, i, <<60, 33, 69, 78, 84, 73, 84, 89>>)
   THEN LET j == SkipWs(s, i + 8)
            ne == NameEnd(s, j)
@@ -277,6 +283,8 @@ LexFrom(s, i, depth, indtd) ==
                        - Cardinality({ j \in 1..Len(m.toks) : m.toks[j].k = "etag" })
        IN m.toks \o LexFrom(s, m.next, IF d1 < 0 THEN 0 ELSE d1,
                             IF k = "doctype" THEN m.toks[1].subset ELSE indtd)
+  ELSE IF indtd /\ depth = 0 /\ s[i] = 37
+  THEN <<[k |-> "peref"], [k |-> "end"]>>                       \* %name; in the internal subset
   ELSE IF indtd /\ depth = 0 /\ s[i] = 93 /\ At(s, SkipWs(s, i + 1)) = 62
   THEN <<[k |-> "dtdend"]>> \o LexFrom(s, SkipWs(s, i + 1) + 1, depth, FALSE)
   ELSE LET e == TextEnd(s, i)
